@@ -37,14 +37,23 @@ def last_prim_index(ref_events):
     return -1
 
 
+_N = 0
+
+
 def strict_vs_ref(case, ref=None, t=None):
     """Compare a strict decode of ``case`` with the reference.  Returns (ref, trace, kind, findings)."""
     if ref is None:
         ref = case.ref(strict=True)
-    if t is None:
-        t = TR.run(case.t, case.d, strict=True, cc=case.cc, enc=case.enc)
-    kind = ref_kind(ref)
     out = []
+    if t is None:
+        # every fifth decode is given a root path other than '.': all paths it reports must lie under it
+        global _N
+        _N += 1
+        rooted = _N % 5 == 3
+        t = TR.run(case.t, case.d, strict=True, cc=case.cc, enc=case.enc, rooted=rooted)
+        if rooted and t.root_escapes:
+            out.append(("root-path", "path-outside-root", f"decoded with root_path='.log.msg': {TR.pstr(t.root_escapes[0])} does not lie under that root"))
+    kind = ref_kind(ref)
     if kind == "unspecified":
         return ref, t, kind, out
     got = cmp.norm_outcome(t)
